@@ -452,6 +452,15 @@ func (fv *FV) verifyFunc(c *Contract, d *declInfo) {
 			fv.specNames[c.Results[i]] = v
 		}
 	}
+	for _, mp := range c.Mutates {
+		for i, pn := range c.Params {
+			if pn == mp && i < len(objs) && objs[i] != nil {
+				if v, ok := exit.vars[objs[i]]; ok {
+					fv.specNames["post:"+mp] = v
+				}
+			}
+		}
+	}
 	penv := &SpecEnv{fv: fv, names: fv.specNames, cur: exit, old: fv.oldState, pkg: d.pkg, tsub: fv.tsub}
 	for _, e := range c.Ensures {
 		g := fv.evalSpecBool(penv, e.Expr)
